@@ -77,7 +77,7 @@ fn main() {
             }
             0
         }
-        "list-adv-failures" => driver::list_adv_failures(),
+        "list-adv-failures" => driver::list_adv_failures(args.get(2).map(|s| s.as_str()).unwrap_or("C01")),
         "child" => vh::props::big::child_main(&args[2..]),
         "replay" => {
             if args.len() < 3 {
